@@ -206,8 +206,8 @@ class Check:
         self.exhaustive = False
         self.t0 = time.time()
 
-    def case(self, name, fn, **kwargs):
-        self.cases.append((name, fn.__module__, fn.__name__, kwargs))
+    def case(self, _case_name, fn, **kwargs):
+        self.cases.append((_case_name, fn.__module__, fn.__name__, kwargs))
 
     def run(self, workers=None):
         sd = seed()
@@ -362,7 +362,10 @@ def replay_script(module, func, point, **kw):
     return REPLAY_HEADER.format(repo=REPO, verif=VERIF) + (
         "from fractions import Fraction\n"
         "import %s as H\n"
-        "r = H.%s(%r, **%r)\n"
+        "try:\n"
+        "    r = H.%s(%r, **%r)\n"
+        "except Exception:\n"
+        "    import traceback; traceback.print_exc(); sys.exit(2)\n"
         "print(r)\n"
         "sys.exit(1 if r else 0)\n" % (module, func, point, kw)
     )
